@@ -91,6 +91,9 @@ def state_case(draw, types=TYPES, n=(1, 4), nh=(1, 4), na=(1, 3), scales=SCALES,
             case["ph"] = draw(net_params(nv, nhid, None, scales))
     if unitaries and t != "positive" and draw(st.booleans()):
         case["unitaries"] = draw(user_unitaries())
+    # lifecycle: 1 in 6 states is reinitialised right after construction (new parameter objects) before its parameters are set
+    if draw(st.integers(0, 5)) == 0:
+        case["reinit_first"] = True
     if unitaries and t != "positive":
         # the order in which the letters were put into the state's dictionary is immaterial: 0 = as create_dict returns it, 1 = reversed, 2 = rotated by one
         case["unitary_key_order"] = draw(st.sampled_from([0, 0, 1, 2]))
@@ -166,10 +169,20 @@ def build_state(case):
         s = ComplexWaveFunction(n, nh, unitary_dict=lib_unitary_dict(case) if (case.get("unitaries") or case.get("unitary_key_order")) else None, gpu=False)
     else:
         s = DensityMatrix(n, nh, case["na"], unitary_dict=lib_unitary_dict(case) if (case.get("unitaries") or case.get("unitary_key_order")) else None, gpu=False)
+    if case.get("reinit_first"):
+        s.reinitialize_parameters()
     set_net(s.rbm_am, case["am"])
     if case.get("ph"):
         set_net(s.rbm_ph, case["ph"])
     return s
+
+
+def reinit_and_set(state, case):
+    """lifecycle step used by histories: reinitialise (the networks get NEW parameter objects), then write the case's parameters again"""
+    state.reinitialize_parameters()
+    set_net(state.rbm_am, case["am"])
+    if case.get("ph"):
+        set_net(state.rbm_ph, case["ph"])
 
 
 def net_of(rbm):
@@ -277,6 +290,8 @@ def arch_label(case):
         lab.append("user_unitaries")
     if case.get("unitary_key_order"):
         lab.append("unitary_dict_key_order!=default")
+    if case.get("reinit_first"):
+        lab.append("reinitialised_before_parameters_set")
     if case.get("large"):
         lab.append("large(beyond-box)")
     if case.get("ph_aux_nonzero"):
